@@ -200,12 +200,16 @@ def _scenario(item):
     return {"viols": viols, "runs": runs}
 
 
-def items():
-    return [("script", e) for e in SCRIPT_EVENTS] + [("code", e) for e in CODE_EVENTS]
+QUICK = {("script", "none"), ("script", "edit1"), ("script", "hdr-py"), ("script", "trunc-code"), ("script", "zero-tail"), ("script", "no-script-cache-after-edit"), ("code", "other-case"), ("code", "hdr-py")}
+
+
+def items(thorough=True):
+    its = [("script", e) for e in SCRIPT_EVENTS] + [("code", e) for e in CODE_EVENTS]
+    return its if thorough else [i for i in its if i in QUICK]
 
 
 def run_part(ctx):
-    its = items()
+    its = items(ctx.thorough)
     rk = [("script", i) for i in range(len(P_BODIES))] + [("code", c) for c in P_CODES]
     for k, r in zip(rk, common.pmap(_ref_item, rk, ctx.jobs, chunk=1, seed=ctx.seed)):
         _REFS[k] = r
@@ -218,7 +222,7 @@ def run_part(ctx):
         n += r["runs"]
     n += len(rk)
     ctx.sample({"part": 3, "kind": "script", "event": "edit1", "meaning": "python -m xonsh s.xsh ; edit (+2 ticks) ; python -m xonsh s.xsh ; python -m xonsh s.xsh"})
-    return {"scenarios": len(its), "process_runs": n, "events": {"script": SCRIPT_EVENTS, "code": CODE_EVENTS}}
+    return {"scenarios": len(its), "process_runs": n, "events": [list(i) for i in its]}
 
 
 def replay(rec):
